@@ -57,6 +57,16 @@ def rule_mergeguard(ctx, classes=SKETCH_CLASSES):
         ename = dotted(exc.func) if isinstance(exc, ast.Call) else dotted(exc) if exc is not None else None
         ctx.ob("guard-first", m, rz, "raise %s" % ename, "a refused merge raises TypeError", ename == "TypeError",
                "" if ename == "TypeError" else "raises %s" % ename)
+        # the refusal itself must be constructible for every operand the guard can refuse: in the count-min family `other` may
+        # be a linear sketch, which lacks the log-only attributes
+        if cls.module.short == "countmin":
+            base_attrs0 = {d.attr for d in init_attr_defs(F.ctor(ctx.model.cls("countmin", "CountMinLinear")))}
+            used = sorted({n.attr for st_ in first.body for n in ast.walk(st_) if isinstance(n, ast.Attribute)
+                           and isinstance(n.value, ast.Name) and n.value.id == other})
+            bad_attrs = [a for a in used if a not in base_attrs0]
+            ctx.ob("guard-order", m, rz, "raise in %s reads other.%s" % (m.qualname, used or "nothing"),
+                   "building the refusal only touches attributes every count-min sketch has (a log/linear pair raises TypeError, not AttributeError)",
+                   not bad_attrs, "" if not bad_attrs else "the raise statement evaluates other.%s, which a linear sketch does not have" % bad_attrs[0])
         side = [n for n in ast.walk(first.test) if isinstance(n, (ast.Call, ast.NamedExpr, ast.Await, ast.Yield))]
         ctx.ob("guard-first", m, first, "guard test of %s" % m.qualname, "the guard test has no calls / side effects", not side,
                "" if not side else "test contains %s" % unparse(side[0], 50))
@@ -1183,6 +1193,9 @@ def rule_value_fwd(ctx, classes=SKETCH_CLASSES):
         res = []
         for r in rets:
             cs = [c for c in on_path(w.events, r) if c in calls]
+            if not cs and "value" in m.params and w.P.prove_le0(Lin.term(("param", "value")), r.facts):
+                res.append((True, "nothing to add (value <= 0)", fact_strs(r)))
+                continue
             res.append((len(cs) == 1, "one kernel call per add" if len(cs) == 1 else "%d kernel calls on a path" % len(cs), fact_strs(r)))
         agg(ctx, "value-fwd", m, calls[0].node if calls else m.node, "%s calls its kernel once" % m.qualname, "add() performs exactly one kernel add", res)
         for c in calls:
@@ -1302,6 +1315,8 @@ def rule_wrapper_once(ctx, classes=SKETCH_CLASSES, methods=WRAPPED):
                 bad = None
                 for k in ksites:
                     n = len([c for c in pre if c.kind == "call" and c.node is k.node])
+                    if n == 0 and mname == "add" and "value" in meth.params and w.P.prove_le0(Lin.term(("param", "value")), r.facts):
+                        continue      # adding a key zero times: nothing to do
                     if n != 1:
                         bad = "%s is called %d times on a path that returns normally" % (k.callee.name, n)
                 res.append((bad is None, "each kernel call site executed once" if bad is None else bad, fact_strs(r)))
@@ -1497,3 +1512,43 @@ def rule_writer_api(ctx, classes=SKETCH_CLASSES):
                    "nothing else opens or modifies the file save() wrote (anything appended after the zip end record makes a truncated copy loadable)",
                    False if mut else None,
                    ("`%s` re-opens/modifies the archive after np.savez" % d) if mut else "unknown use of the file name: %s" % d)
+
+
+# ---------------------------------------------------------------------------
+# args-private: behaviour may depend only on state that save()/load() reproduce
+# ---------------------------------------------------------------------------
+
+NOT_REPRODUCED = {"args": "the constructor-argument record: a reloaded sketch is rebuilt from normalised values (phi=None becomes 1/width, "
+                          "num_reserved=None becomes the default), so `self.args` differs between a sketch and its reloaded copy",
+                  "shm": "placement", "existing_shm": "placement"}
+MAY_READ_UNREPRODUCED = {"__init__", "__del__", "attach_existing_shm"}
+
+
+def rule_args_private(ctx, classes=SKETCH_CLASSES):
+    F = facts_of(ctx)
+    seen = set()
+    entry = ("query", "add", "update", "add_ngram", "update_ngram", "merge", "generate_candidate_set", "__getitem__", "save", "load",
+             "n_added", "n_records")
+    for cls in F.classes(classes):
+        # the observable API and everything it reaches through self.<method>() calls
+        reach, todo = set(), [m for m in entry if cls.resolve(m) is not None]
+        while todo:
+            mn = todo.pop()
+            if mn in reach:
+                continue
+            reach.add(mn)
+            mm = cls.resolve(mn)
+            for n in walk_no_nested(mm.node):
+                if isinstance(n, ast.Call) and isinstance(n.func, ast.Attribute) and isinstance(n.func.value, ast.Name) and n.func.value.id == "self" \
+                        and cls.resolve(n.func.attr) is not None:
+                    todo.append(n.func.attr)
+        for mname in sorted(reach):
+            meth = cls.resolve(mname)
+            if meth.key in seen or mname in MAY_READ_UNREPRODUCED:
+                continue
+            seen.add(meth.key)
+            reads = [n for n in walk_no_nested(meth.node) if isinstance(n, ast.Attribute) and isinstance(n.ctx, ast.Load)
+                     and isinstance(n.value, ast.Name) and n.value.id == "self" and n.attr in ("args",)]
+            ctx.ob("args-private", meth, reads[0] if reads else meth.node, "%s reads self.args: %s" % (meth.qualname, "yes" if reads else "no"),
+                   "no method's behaviour depends on `self.args` (it is not reproduced by load(): original and reloaded copy would behave differently)",
+                   not reads, "" if not reads else "`%s` makes the sketch's behaviour depend on how it was constructed rather than on its saved state" % unparse(reads[0].ctx and reads[0], 40))
